@@ -30,3 +30,48 @@ def obligations(tier, seed):
     obs.append(Ob("lam", "gen::c20_twin_false", expect="fail", desc="deliberately false twin"))
     META["skeletons_enumerated"] = {"shapes": len(obs) - 1, "of": 496, "exhaustive_within_bound": tier == "thorough"}
     return obs
+
+
+def run_engine(tier, seed, known, only):
+    """expansion + native cross-check: all 496 shapes as plain tests compiled by rustc (a shape that does not expand is a
+    violation of 'the generated closure compiles'; the failing shape and the compiler message are the replay)"""
+    import subprocess, re, json, time
+    import gen_lam
+    from vp import kani as _k
+    out = {"records": [], "violations": [], "known": [], "inconclusive": []}
+    t0 = time.time()
+    crate = _k.crate_dir("lam")
+    os.makedirs(os.path.join(crate, "tests"), exist_ok=True)
+    gen_lam.main_native(os.path.join(crate, "tests", "native_shapes.rs"))
+    env = dict(os.environ); env["CARGO_NET_OFFLINE"] = "true"
+    p = subprocess.run(["cargo", "test", "--offline", "--target-dir", os.path.join(_k.BUILD, "C20", "native"), "--test", "native_shapes"], cwd=crate, env=env,
+                       stdout=subprocess.PIPE, stderr=subprocess.STDOUT, text=True, timeout=1800)
+    txt = p.stdout
+    rec = {"name": "expansion + native cross-check of all 496 shapes", "engine": "rustc", "status": "PASS", "ok": True, "queries": 496, "time": time.time() - t0,
+           "desc": "every shape expands (rustc) and the closure equals the explicit recursion on concrete values", "bounds": "496 shapes x 4 depths x 3 seeds"}
+    m = re.search(r"test result: ok\. (\d+) passed; 0 failed", txt)
+    if m and int(m.group(1)) == 496:
+        pass
+    else:
+        errs = re.findall(r"^(error(?:\[E\d+\])?: .*)$", txt, re.M)
+        failed = re.findall(r"^test (n20_\w+) \.\.\. FAILED$", txt, re.M)
+        lines = re.findall(r"--> tests/native_shapes\.rs:(\d+):", txt)
+        shapes = []
+        if lines:
+            src = open(os.path.join(crate, "tests", "native_shapes.rs")).read().split("\n")
+            for ln in lines[:6]:
+                k = int(ln)
+                while k > 0 and not src[k - 1].startswith("fn n20_"):
+                    k -= 1
+                shapes.append(src[k - 1][3:].split("(")[0] if k > 0 else "?")
+        rec.update(status="FAIL", ok=False, violation={"compile_errors": errs[:5], "shapes": sorted(set(shapes))[:8], "failed_tests": failed[:8]})
+        if errs or failed:
+            rdir = os.path.join(_k.VERIF, "replays", "C20"); os.makedirs(rdir, exist_ok=True)
+            path = os.path.join(rdir, "expansion.json")
+            json.dump({"property": "C20", "shapes_that_do_not_expand": sorted(set(shapes)), "failed_tests": failed, "compiler": errs[:10],
+                       "how": "cd harness/lam && cargo test --offline --test native_shapes"}, open(path, "w"), indent=1)
+            out["violations"].append("VIOLATION property=C20 replay=%s" % os.path.relpath(path, _k.VERIF))
+        else:
+            out["inconclusive"].append({"obligation": rec["name"], "reason": "native shapes test neither passed nor failed cleanly: " + txt[-300:]})
+    out["records"].append(rec)
+    return out
